@@ -120,6 +120,19 @@ pub struct CompleteIo {
 struct IoPacket {
     command: IoCommand,
     completion_sender: Sender<CompleteIo>,
+    // how many times this command has completed with fewer bytes than a page so far.
+    short_completions: u32,
+}
+
+/// A page read or write that completes short is issued again, but not forever: a device or
+/// limit that keeps cutting the operation short is an I/O failure.
+const MAX_SHORT_COMPLETIONS: u32 = 16;
+
+fn short_completion_error() -> std::io::Error {
+    std::io::Error::new(
+        std::io::ErrorKind::Other,
+        "page I/O keeps completing with fewer bytes than a page",
+    )
 }
 
 /// Create an I/O worker managing an io_uring and sending responses back via channels to a number
@@ -223,6 +236,7 @@ impl IoHandle {
             .send(IoPacket {
                 command,
                 completion_sender: self.completion_sender.clone(),
+                short_completions: 0,
             })
             .map_err(|SendError(packet)| SendError(packet.command))
     }
